@@ -291,7 +291,14 @@ def mk_comp(d, it, items, conds=()):
     if has(items, "kv") or has(conds, "kv"):
         items = tuple(_position_tables(i, d, it) for i in items)
         conds = tuple(_position_tables(c, d, it) for c in conds)
-    items = tuple(_norm_when(i) for i in items)
+    flat_items = []
+    for i in items:
+        i = _norm_when(i)
+        if i[0] == "spread" and i[1][0] == "list":
+            flat_items.extend(_norm_when(x) for x in i[1][1])  # each element contributes a fixed list of items
+        else:
+            flat_items.append(i)
+    items = tuple(flat_items)
     if items == (("bv", d),) and not conds and it[0] in ("list", "comp"):
         return it  # the identity comprehension
     if len(conds) > 1:
@@ -401,18 +408,33 @@ def mk_not(v):
 NEG_OPS = {"!=", "is not", "not in"}
 
 
-def assume(v, cond, truth: bool):
-    """v under the assumption that `cond` is `truth`: conditionals / boolean operands testing exactly `cond` collapse"""
+def assume(v, cond, truth: bool, boolean: bool = False):
+    """v under the assumption that `cond` is `truth`.  Only occurrences of `cond` in *boolean positions* (test of a
+    conditional, operand of not / and, filter of a comprehension, guard of an item) are replaced - the same term
+    used as data (a sequence tested for emptiness and then iterated) is left alone."""
     if not isinstance(v, tuple) or not v or cond[0] == "c":
         return v
-    if v == cond:
+    if boolean and v == cond:
         return C(truth)
-    if v[0] == "if" and v[1] == cond:
-        return assume(v[2] if truth else v[3], cond, truth)
-    if v[0] in ("if", "not", "bool", "when", "list", "s", "h", "spread") or (v[0] == "call" and v[1] in ("any", "all")):
-        new = tuple(assume(x, cond, truth) if isinstance(x, tuple) else x for x in v)
-        return renorm_deep(new) if new != v else v
-    return v
+    t = v[0]
+    if t == "if":
+        c = assume(v[1], cond, truth, True)
+        if c == C(True):
+            return assume(v[2], cond, truth, boolean)
+        if c == C(False):
+            return assume(v[3], cond, truth, boolean)
+        new = ("if", c, assume(v[2], cond, truth, boolean), assume(v[3], cond, truth, boolean))
+    elif t == "not":
+        new = ("not", assume(v[1], cond, truth, True))
+    elif t == "bool":
+        new = ("bool", v[1], tuple(assume(x, cond, truth, True) for x in v[2]))
+    elif t == "when":
+        new = ("when", assume(v[1], cond, truth, True), assume(v[2], cond, truth, False))
+    elif t == "comp" and len(v) == 5:
+        new = ("comp", v[1], assume(v[2], cond, truth, False), tuple(assume(x, cond, truth, False) for x in v[3]), tuple(assume(x, cond, truth, True) for x in v[4]))
+    else:
+        new = tuple(assume(x, cond, truth, False) if isinstance(x, tuple) else x for x in v)
+    return renorm_deep(new) if new != v else v
 
 
 def renorm_deep(v):
@@ -431,7 +453,7 @@ def mk_if(cond, a, b):
         return a if cond[1] else b
     if a == b:
         return a
-    a2, b2 = assume(a, cond, True), assume(b, cond, False)
+    a2, b2 = assume(a, cond, True, False), assume(b, cond, False, False)
     if a2 != a or b2 != b:
         return mk_if(cond, a2, b2)
     # canonical polarity: positive comparison first
@@ -2450,3 +2472,57 @@ def compatible(v, want) -> bool:
             return False
         return all(compatible(a, b) for a, b in zip(v, want))
     return v == want
+
+
+def to_python(v, names: dict | None = None) -> str:
+    """Python source text of a term (for the term evaluator of sa.te); bound elements are named by `names`
+    ({depth: identifier}).  Raises ValueError for terms that have no expression form."""
+    names = names or {}
+    t = v[0]
+    r = lambda x: to_python(x, names)  # noqa: E731
+    if t == "c":
+        return repr(v[1])
+    if t == "sym":
+        return v[1]
+    if t == "enum":
+        return f"{v[1]}.{v[2]}"
+    if t == "bv":
+        base = names.get(v[1], f"_bv{v[1]}")
+        return base + "".join(f"[{i}]" for i in v[2:])
+    if t in ("idx", "cidx", "first", "acc"):
+        return f"_{t}{v[1]}"
+    if t == "attr":
+        return f"{r(v[1])}.{v[2]}"
+    if t == "sub":
+        return f"{r(v[1])}[{r(v[2])}]"
+    if t == "call":
+        a = [r(x) for x in v[2]] + [f"{k}={r(x)}" for k, x in v[3] if k != "**"]
+        return f"{v[1]}({', '.join(a)})"
+    if t == "mcall":
+        a = [r(x) for x in v[3]] + [f"{k}={r(x)}" for k, x in v[4] if k != "**"]
+        return f"{r(v[1])}.{v[2]}({', '.join(a)})"
+    if t == "op":
+        if v[1] in ("neg", "pos"):
+            return f"({'-' if v[1] == 'neg' else '+'}{r(v[2])})"
+        return f"({r(v[2])} {v[1]} {r(v[3])})"
+    if t == "cmp":
+        return f"({r(v[2])} {v[1]} {r(v[3])})"
+    if t == "not":
+        return f"(not {r(v[1])})"
+    if t == "bool":
+        return "(" + f" {v[1]} ".join(r(x) for x in v[2]) + ")"
+    if t == "if":
+        return f"({r(v[2])} if {r(v[1])} else {r(v[3])})"
+    if t == "list":
+        if any(i[0] in ("spread", "when", "kv", "kadd", "ev", "obj") for i in v[1]):
+            raise ValueError("list with structured items")
+        return "[" + ", ".join(r(i) for i in v[1]) + "]"
+    if t == "s":
+        out = []
+        for p in v[1]:
+            if p[0] == "lit":
+                out.append(p[1].replace("{", "{{").replace("}", "}}").replace('"', '\\"'))
+            else:
+                out.append("{" + r(p[1]) + "}")
+        return 'f"' + "".join(out) + '"'
+    raise ValueError(f"no expression form for {t}")
